@@ -42,7 +42,7 @@ fn read_line(data: &[u8]) -> Result<(String, Vec<Option<Vec<u8>>>), String> {
     }
 }
 
-fn frame(ty: u8, payload: &[u8], len_field: Option<u16>, bad_crc: bool) -> Vec<u8> {
+pub fn frame(ty: u8, payload: &[u8], len_field: Option<u16>, bad_crc: bool) -> Vec<u8> {
     let mut h = crc32fast::Hasher::default();
     h.update(&[ty]);
     h.update(payload);
